@@ -244,6 +244,9 @@ fn run<T: Sc>(case: &TrajCase) -> Check {
     out.class(case.base.weight_class());
     out.class(format!("S={}", case.base.s()));
     out.class(case.base.flavour());
+    for r in case.base.regime() {
+        out.class(r);
+    }
     if case.base.spec.has_shared_param() {
         out.class("shared-parameter");
     }
@@ -278,6 +281,9 @@ impl Property for C03 {
     fn strategy(&self, _tier: Tier) -> BoxedStrategy<TrajCase> {
         let cfg = CaseCfg { spec: SpecCfg { allow_duplicates: false, ..SpecCfg::default() }, collisions: false, ..CaseCfg::default() };
         traj_strategy(cfg, 3, 5).boxed()
+    }
+    fn pool_of(&self, case: &Self::Case) -> Option<usize> {
+        case.base.pool_size()
     }
     fn check(&self, case: &TrajCase) -> Check {
         if case.base.f32 {
